@@ -1,5 +1,5 @@
 """C18 — misusing keys, purposes or versions fails to compile; secrets cannot be printed."""
-import os, sys, json, subprocess, tempfile, shutil, hashlib
+import re, os, sys, json, subprocess, tempfile, shutil, hashlib
 from concurrent.futures import ThreadPoolExecutor
 from ops import *
 from runner import site_of, VERIF
@@ -116,6 +116,31 @@ def census(ctx):
     allowed = {"expose_key", "as_raw_bytes", "encode", "compressed_pub_key"}
     badx = [x for x in exposing if x[1] not in allowed]
     ctx.add("R18.1", "C18/census/key-bytes-accessors", not badx, f"unreviewed public methods returning key bytes: {badx}" if badx else "", facts={"accessors": sorted(set(f"{c}:{n}" for c, n, _ in exposing))})
+    # closed-world census of trait impls on Key in any crate: conversion / borrowing traits (AsRef, Deref, Borrow, Into, From<Key>)
+    # would hand out the backend's native key object, whose public methods and the HasKey/SealingVersion trait functions then
+    # read key bytes or use a key under another kind without expose_key()
+    KEY_TRAITS_OK = {"core::clone::Clone", "core::convert::From", "core::fmt::Display", "core::str::traits::FromStr", "core::convert::TryFrom",
+                     "core::fmt::Debug", "core::marker::Send", "core::marker::Sync", "core::marker::Unpin", "core::panic::unwind_safe::UnwindSafe",
+                     "core::panic::unwind_safe::RefUnwindSafe", "serde_core::de::Deserialize"}
+    odd = []
+    nkey = 0
+    for cn, cr in ctx.crates.items():
+        for im in cr.impls:
+            if not im.get("of_trait"):
+                continue
+            st = cr.ty_s(im["self"])
+            if st.startswith("key::Key<") or st.startswith("paseto_core::key::Key<"):
+                nkey += 1
+                if im["trait"] not in KEY_TRAITS_OK:
+                    odd.append(f"{cn}: {im['trait']} for {short(st)}")
+                elif im["trait"] == "core::convert::From" and "[u8; 32]" not in im.get("trait_full", ""):
+                    odd.append(f"{cn}: {short(im.get('trait_full', im['trait']))}")
+            # conversions OUT of a Key: `impl From<Key<..>> for X` / `impl AsRef<X> for Key` are keyed on the trait's type arguments
+            tf = im.get("trait_full", "")
+            if im["trait"] in ("core::convert::From", "core::convert::TryFrom") and re.search(r"(From|TryFrom)<(&)?(paseto_core::)?key::Key<", tf) and not (st.startswith("key::Key<")):
+                odd.append(f"{cn}: {short(tf)} (conversion out of a Key)")
+    ctx.add("R18.1", "C18/census/Key-trait-impls", nkey >= 5 and not odd, ("unreviewed trait impls on / conversions out of Key: " + "; ".join(sorted(set(odd)))) if odd else ("" if nkey >= 5 else "anchor missing"),
+            facts={"impls_on_Key": nkey})
     # field privacy of Key and tokens
     for adt, crn in (("key::Key", "paseto_core"), ("tokens::SealedToken", "paseto_core")):
         a = ctx.crates[crn].adts.get(adt)
